@@ -3,6 +3,7 @@ package main
 import (
 	"context"
 	"errors"
+	"math"
 	"math/big"
 	"reflect"
 	"strconv"
@@ -53,6 +54,10 @@ type bFunc struct {
 	// so only their arity / conversion verdict and their result are checked
 	Builtin bool
 	Ref     func(args []BV) (BV, int)
+	// Reenter: func(ctx, x interface{}) (interface{}, error) that evaluates another,
+	// failing, formula on the same runner with a derived context, swallows the
+	// error and returns x
+	Reenter bool
 }
 
 func (f *bFunc) sig() string {
@@ -79,7 +84,11 @@ type bCall struct {
 	ctxOK bool
 }
 
+type innerKeyT struct{}
+
 type bWorld struct {
+	ctx    context.Context
+	runner *formula.Runner
 	funcs  map[string]*bFunc
 	log    []bCall
 	n      int
@@ -129,9 +138,11 @@ func (f *bFunc) retValue(k int) (reflect.Value, BV) {
 		bv.Approx = true
 		return reflect.ValueOf(v), bv
 	case rFloat64:
-		v := []float64{2.5, 0.1, -1e10, 4}[s%4]
+		v := []float64{2.5, 0.1, -1e10, 4, 0, math.Copysign(0, -1)}[s%6]
 		r, _ := new(big.Rat).SetString(strconv.FormatFloat(v, 'f', -1, 64))
-		return reflect.ValueOf(v), bvNum(r)
+		bv := bvNum(r)
+		bv.NegZero = v == 0 && math.Signbit(v)
+		return reflect.ValueOf(v), bv
 	case rString:
 		v := []string{"r", "", "12", "résumé"}[s%4]
 		return reflect.ValueOf(v), bvStr(v)
@@ -177,7 +188,7 @@ func (w *bWorld) build(f *bFunc) interface{} {
 		i := 0
 		if f.Ctx {
 			if c, ok := in[0].Interface().(context.Context); ok && c != nil {
-				rec.ctxOK = c.Value(ctxKeyT{}) == w.token
+				rec.ctxOK = c == w.ctx // the caller's context itself, not merely one derived from it
 			}
 			i = 1
 		}
@@ -197,6 +208,17 @@ func (w *bWorld) build(f *bFunc) interface{} {
 				w.fired++
 			}
 			return []reflect.Value{reflect.Zero(f.retType()), reflect.ValueOf(errors.New("host says no")).Convert(rtErr)}
+		}
+		if f.Reenter {
+			// evaluate a failing formula on the same runner under a derived context, ignore its error
+			if src, perr := formula.ParseSourceCode([]byte("abs()")); perr == nil && w.runner != nil {
+				w.runner.Resolve(context.WithValue(w.ctx, innerKeyT{}, 1), src.Expression)
+			}
+			out := reflect.New(rtIface).Elem()
+			if !(in[1].Kind() == reflect.Interface && in[1].IsNil()) {
+				out.Set(in[1])
+			}
+			return []reflect.Value{out, zeroErr}
 		}
 		rv, _ := f.retValue(calls)
 		return []reflect.Value{rv, zeroErr}
@@ -456,10 +478,7 @@ func (g *bgen) call(f *bFunc, d int, fit bool) *BNode {
 		}
 		n.Kids = append(n.Kids, g.argFor(p, d))
 	}
-	if spread && count == 0 {
-		n.Spread = false
-	}
-	return n
+	return n // `f(...)` with no argument at all is legal syntax too
 }
 
 // ---------------------------------------------------------------- model evaluation
@@ -639,6 +658,10 @@ func (e *bEval) eval(n *BNode) (BV, int) {
 			e.errFn = f.Name
 			return BV{}, stError
 		}
+		if f.Reenter {
+			e.cells["reentrant_evaluation_inside_host_function"]++
+			return args[0], stOK
+		}
 		_, bv := f.retValue(e.perFn[f.Name])
 		e.cells["result:"+rKindNames[f.Ret]]++
 		return bv, stOK
@@ -739,6 +762,13 @@ func bridgeOnce(rc *RunCtx, wl, fl *Stream, primary bool) {
 		data[nm] = w.build(f)
 		sample.Funcs = append(sample.Funcs, f.sig())
 	}
+	if wl.Intn(4) == 0 {
+		f := &bFunc{Name: "rn", Ctx: true, Params: []pType{{K: pIface}}, Ret: rIface, Reenter: true}
+		w.funcs["rn"] = f
+		names = append(names, "rn")
+		data["rn"] = w.build(f)
+		sample.Funcs = append(sample.Funcs, "rn(ctx, interface{}) (interface{}, error) [re-enters the runner with a derived context; that evaluation fails]")
+	}
 	g := &bgen{s: wl, w: w, names: names, data: model, depth: depth, rc: rc}
 	root := &BNode{Op: bArrLit}
 	for i, cnt := 0, 1+wl.Intn(maxCalls); i < cnt; i++ {
@@ -770,6 +800,7 @@ func bridgeOnce(rc *RunCtx, wl, fl *Stream, primary bool) {
 		}
 	}
 	ctx := context.WithValue(context.Background(), ctxKeyT{}, token)
+	w.ctx = ctx
 	tc := &treeCache{}
 	var shape evHash
 	shape.addString(text)
@@ -783,6 +814,7 @@ func bridgeOnce(rc *RunCtx, wl, fl *Stream, primary bool) {
 		}
 		r := formula.NewRunner()
 		r.SetThis(data)
+		w.runner = r
 		var got interface{}
 		var err error
 		var pan interface{}
@@ -952,6 +984,18 @@ func anyApprox(v BV) bool {
 	return false
 }
 
+func anyNegZero(v BV) bool {
+	if v.NegZero {
+		return true
+	}
+	for _, e := range v.A {
+		if anyNegZero(e) {
+			return true
+		}
+	}
+	return false
+}
+
 func hasUnknown(v BV) bool {
 	if v.K == bUnknown {
 		return true
@@ -1038,6 +1082,9 @@ var bridgeBuiltins = []*bFunc{
 				best = x
 			}
 		}
+		if best.N.Sign() == 0 && anyNegZero(a[0]) {
+			return BV{}, stUnspec // which of +0 and -0 is the greater is nobody's promise
+		}
 		return best, stOK
 	}},
 	{Name: "min", Builtin: true, Variadic: true, Params: []pType{sliceOf(pDec)}, Ref: func(a []BV) (BV, int) {
@@ -1049,6 +1096,9 @@ var bridgeBuiltins = []*bFunc{
 			if x.N.Cmp(best.N) < 0 {
 				best = x
 			}
+		}
+		if best.N.Sign() == 0 && anyNegZero(a[0]) {
+			return BV{}, stUnspec
 		}
 		return best, stOK
 	}},
